@@ -112,6 +112,19 @@ CLAIMED = {
         'rational-pole class get the algebraic clauses only.',
    ref='DESIGN.md §6 C12, §7', technique='TLA+ spec (symbolic modal closed form) + TLC; spec->code replay',
    note='As TLC_BASE; additionally: exp() is evaluated by the harness (one call per pole); exact response only for circuits with distinct Gaussian-rational poles of order <= 2.'),
+ 'C13': dict(
+   text='The TLA+ module Drawing defines the netlist a drawing program depicts (electrical nodes = classes of points joined by chains of wires, one component per two-terminal '
+        'symbol in insertion order between the classes of its start and end point, reversed sources swapped, ground = reference, labels name their class) and TLC checks that '
+        'a quarter turn of the drawing leaves it unchanged up to renaming.  Programs (<= 8 placements on a 3x3 grid, every supported symbol with either reversal / degree '
+        'flag, wires, labels, one ground) are generated by TLC -simulate, built with the real element classes (placement asserted) as drawn and under a random rigid motion, '
+        'rescaling, wire splitting, insertion order and naming; circuit_translator\'s components are compared with the netlist up to a node bijection respecting ground and '
+        'labels, and the DC solution with the specification\'s exact solution.',
+   ref='DESIGN.md §6 C13', technique='TLA+ spec + TLC simulation of drawing programs; spec->code replay'),
+ 'C15': dict(
+   text='(a) Programs over the persistable symbol set (TLC -simulate of MC_C13) are built, saved and reloaded 1-3 times with SimpleCircuit.dump_load (JSON) and the reloaded '
+        'drawing is compared with the specification\'s netlist after every cycle.  (b) The TLA+ module MC_C15 assigns to every declarative element list (type, values, direction, '
+        'length, place_after, reverse; cursor semantics) a drawing program; create_schematic\'s result is compared with that program\'s netlist and with the programmatic construction.',
+   ref='DESIGN.md §6 C15', technique='TLA+ spec + TLC simulation; spec->code replay'),
 }
 
 PENDING_REASON = 'check not built yet in this round (planned: TLA+ model + conformance replay, see DESIGN.md §6); no claim is made until it exists'
